@@ -347,6 +347,9 @@ Definition add_missing (m o : list (bytes * addr)) : list (bytes * addr) :=
 Definition add_all (m o : list (bytes * addr)) : list (bytes * addr) :=
   fold_left (fun acc kv => aset (fst kv) (snd kv) acc) o m.
 
+Definition not_self (p : addr) (o : list (bytes * addr)) : list (bytes * addr) :=
+  filter (fun kv => negb (Nat.eqb (snd kv) p)) o.
+
 Definition is_container (v : json) : bool := match v with JArr _ | JObj _ => true | _ => false end.
 
 Definition foreach_lines (h : heap) (n : node) : option (option bytes) :=
@@ -445,7 +448,15 @@ Definition step_plain (st : state) (o : opt) : list outcome :=
   | OAppend =>
       match top_addr st, top_node st, prev_addr st, prev_node st with
       | Some t, Some _, Some p, Some (NArr l) => guard_cyc p (set_node p (NArr (l ++ [t])) st) st
-      | Some t, Some (NObj o), Some p, Some (NObj m) => guard_cyc p (set_node p (NObj (add_missing m o)) st) st
+      | Some t, Some (NObj o), Some p, Some (NObj m) =>
+          let st' := set_node p (NObj (add_missing m o)) st in
+          match value (hp st') p with
+          | Some _ => [Ok st']
+          | None =>
+              (* a member of TOP refers back to PREV: fail / build the cycle / leave out the
+                 members that are PREV itself (silent) *)
+              [fail st; Ok st'; Ok (set_node p (NObj (add_missing m (not_self p o))) st)]
+          end
       | _, _, _, _ => [fail st]
       end
   | OExtend =>
